@@ -207,7 +207,7 @@ type raceReport struct {
 	InZap bool
 }
 
-var zapFrame = regexp.MustCompile(`github\.com/blevesearch/zapx/v16\.([^\s(]+(?:\([^)]*\))?[^\s(]*)`)
+var zapFrame = regexp.MustCompile(`github\.com/blevesearch/zapx/v16\.(\S+?)\(\)`)
 
 func parseRaces(dir string) []raceReport {
 	var out []raceReport
